@@ -4,6 +4,9 @@
 location of the agent's own scratch worktree /tmp/<wb|wt><tag>_<PID>; nothing from /verif."""
 import json, os, sys
 kind, tag, pids = sys.argv[1], sys.argv[2], sys.argv[3:]
+focus = {}
+if "--focus" in pids:  # --focus FILE: json {PID: "quoted clause(s) of the property's own statement to aim at"}
+    i = pids.index("--focus"); focus = json.load(open(pids[i + 1])); del pids[i:i + 2]
 props = {json.loads(l)["id"]: json.loads(l) for l in open("/verif/properties.jsonl")}
 out = f"/tmp/prompts_{tag}"; os.makedirs(out, exist_ok=True)
 HEAD = ("You are helping test a verification effort for the Python package quansino (Monte Carlo simulations on ASE). You have your own scratch git worktree of the repository at {wt} "
@@ -15,6 +18,7 @@ for pid in pids:
     wt = f"/tmp/{'wb' if kind == 'benign' else 'wt'}{tag}_{pid}"
     areas = ", ".join(d["anchors"]["files"])
     mech = "; ".join(f"{m['name']} @ {m['where']}" for m in d["anchors"].get("mechanism", []))
+    focus_txt = (f"AIM AT THIS PART of the statement: {focus[pid]}. " if pid in focus else "")
     if kind == "benign":
         txt = HEAD.format(wt=wt) + f"""The package satisfies this semantic property, and it must KEEP satisfying it:
 
@@ -34,7 +38,7 @@ STATEMENT: {d['statement']}
 QUANTIFIED OVER: {d['quantifier']['text']}
 CODE AREAS INVOLVED: {areas}
 
-Your task: produce ONE realistic change to the source under {wt}/src/quansino (the kind of change a developer could plausibly make: a refactoring slip, an 'optimisation', an off-by-one, a changed default, a reordered statement, a dropped or duplicated call, a wrong variable, a cached value that goes stale, a condition that is right for the common case only, two sites that each look fine alone but disagree) that BREAKS this property, while the package still imports and the WHOLE existing test suite still passes. The statement has several clauses: prefer breaking one of the LESS obvious clauses, at a site other than the most obvious function, and prefer a change that needs something specific to manifest (a particular sequence of operations, an unusual but legal input, a particular accept/reject/fail history, a crash or fault at a particular point, a non-default configuration, two cooperating sites) rather than one that ordinary use would expose at once. The change may be disguised as a refactoring (helper extracted, code moved) as long as behaviour really changes. Do not touch the tests. Keep the change small (a few lines, one or two files).
+Your task: produce ONE realistic change to the source under {wt}/src/quansino (the kind of change a developer could plausibly make: a refactoring slip, an 'optimisation', an off-by-one, a changed default, a reordered statement, a dropped or duplicated call, a wrong variable, a cached value that goes stale, a condition that is right for the common case only, two sites that each look fine alone but disagree) that BREAKS this property, while the package still imports and the WHOLE existing test suite still passes. {focus_txt}The statement has several clauses: prefer breaking one of the LESS obvious clauses, at a site other than the most obvious function, and prefer a change that needs something specific to manifest (a particular sequence of operations, an unusual but legal input, a particular accept/reject/fail history, a crash or fault at a particular point, a non-default configuration, two cooperating sites) rather than one that ordinary use would expose at once. The change may be disguised as a refactoring (helper extracted, code moved) as long as behaviour really changes. Do not touch the tests. Keep the change small (a few lines, one or two files).
 
 Deliver, all inside {wt}/seed_out/ :
 1. patch.diff — `git -C {wt} diff` of your source change only (must apply to the unchanged tree with `git apply`).
